@@ -125,6 +125,8 @@ def gen(ctx):
             yield cmp_case("(def (Report (x 0))) (when true (:= Report.x %s))" % e, tags=("depth",))
             yield cmp_case("(def (Report (x 0))) (when %s (report))" % e.replace("+", "<", 1), tags=("depth",))
         yield cmp_case("(" * depth + "def", tags=("depth",))
+    for _s in G.multibyte_comment_sweep(0, 1100 if ctx.thorough else 600):
+        yield cmp_case(_s, tags=("multibyte-character-across-every-offset",))
     # sources nested DEEPER than the property's bound are outside its quantifier themselves - but what they leave behind is
     # not (round 5: a per-thread depth counter that a refused over-deep source did not give back; after ~255 of them every
     # ordinary program panicked): several hundred distinct over-deep sources, all compiled by this one process on this one
